@@ -80,10 +80,10 @@ func v2Scenarios() map[string][]byte {
 type v2T struct {
 	aliasOf map[string]string // C01: document key -> key of a document with the same words
 	byKey   map[string]v2Doc
-	out  *vuWriter
-	nIn  int
-	rng  *rand.Rand
-	tier string
+	out     *vuWriter
+	nIn     int
+	rng     *rand.Rand
+	tier    string
 }
 
 func newRand(seed int64) *rand.Rand { return rand.New(rand.NewSource(seed)) }
@@ -93,13 +93,15 @@ func newV2T() *v2T {
 	return &v2T{out: vuOpenOut("VERIF_OUT"), rng: rand.New(rand.NewSource(seed)), tier: os.Getenv("VERIF_TIER")}
 }
 
-func (t *v2T) thorough() bool { return t.tier == "thorough" }
+func (t *v2T) thorough() bool                { return t.tier == "thorough" }
 func (t *v2T) emit(m map[string]interface{}) { t.out.Emit(m) }
+
 // reset drops the per-input state of the trace spec (last results, plants, scores); the corpus of the
 // classifiers is kept unless all is set.
 func (t *v2T) reset(keepMemo bool) {
 	t.emit(map[string]interface{}{"ev": "reset", "keepmemo": keepMemo, "keepcorpus": true})
 }
+
 // watch arms a watchdog for one call of the real API: if it does not return within the limit, a
 // `timeout` event is written, the trace flushed and the process ended (the call cannot be interrupted).
 func (t *v2T) watch(c *v2C, api string, data []byte) func() {
